@@ -1237,3 +1237,22 @@ def gen_lock_case(rng, cid):
     if sum(u["role"] != "cache" for u in users) < 2:
         users.append({"role": "writer", "start_us": rng.randrange(0, 300), "think_us": rng.choice([0, 200, 2000])})
     return {"id": cid, "kind": "lock", "users": users, "padding": rng.choice([0, 0, 20, 100, 400])}
+
+
+# --------------------------------------------------------------------------
+# C03: requirement propagation — larger graphs, denser policy tables
+
+def gen_req_case(rng, cid):
+    pkgs = gen_graph(rng, max_third=rng.choice([3, 5, 7]))
+    store = gen_store(rng, pkgs, p_violation=0.0, with_imports=False)
+    crits = _crits(store)
+    names = sorted({p["name"] for p in pkgs})
+    have = {k.split(":")[0] for k in store["policy"]}
+    for _ in range(2):
+        more = gen_policy(rng, pkgs, crits, names)
+        for k, v in more.items():
+            if k.split(":")[0] not in have:
+                store["policy"][k] = v
+        have = {k.split(":")[0] for k in store["policy"]}
+    return {"id": cid, "kind": "resolve", "graph": {"packages": pkgs}, "store_struct": store,
+            "store": render_store(store), "mode": "locked"}
